@@ -6,6 +6,7 @@ use super::macros::*;
 use crate::interpreter::RuntimeErrorKind;
 use crate::quantity::Quantity;
 use crate::typechecker::type_scheme::TypeScheme;
+use crate::unit::Unit;
 use crate::value::Value;
 
 pub fn mod_(
@@ -16,10 +17,33 @@ pub fn mod_(
     let x = quantity_arg!(args);
     let y = quantity_arg!(args);
 
-    let x_value = x.unsafe_value().to_f64();
-    let y_value = y.convert_to(x.unit()).unwrap().unsafe_value().to_f64();
+    let (x_value, y_value, unit) = values_in_common_unit(&x, &y)?;
 
-    return_quantity!(x_value.rem_euclid(y_value), x.unit().clone())
+    return_quantity!(x_value.rem_euclid(y_value), unit)
+}
+
+/// The values of `a` and `b` in a common unit (the one of `a`, if possible). Both arguments
+/// have the same dimension, but a literal zero is dimension-polymorphic and arrives without
+/// a unit; it can be expressed in the unit of the other argument.
+fn values_in_common_unit(
+    a: &Quantity,
+    b: &Quantity,
+) -> Result<(f64, f64, Unit), Box<RuntimeErrorKind>> {
+    if let Ok(b_converted) = b.convert_to(a.unit()) {
+        return Ok((
+            a.unsafe_value().to_f64(),
+            b_converted.unsafe_value().to_f64(),
+            a.unit().clone(),
+        ));
+    }
+    let a_converted = a
+        .convert_to(b.unit())
+        .map_err(|e| Box::new(RuntimeErrorKind::QuantityError(e)))?;
+    Ok((
+        a_converted.unsafe_value().to_f64(),
+        b.unsafe_value().to_f64(),
+        b.unit().clone(),
+    ))
 }
 
 // A simple math function with signature 'Fn[(Scalar) -> Scalar]'
@@ -66,8 +90,7 @@ pub fn atan2(
     let y = quantity_arg!(args);
     let x = quantity_arg!(args);
 
-    let y_value = y.unsafe_value().to_f64();
-    let x_value = x.convert_to(y.unit()).unwrap().unsafe_value().to_f64();
+    let (y_value, x_value, _) = values_in_common_unit(&y, &x)?;
 
     return_scalar!(y_value.atan2(x_value))
 }
